@@ -68,7 +68,10 @@ Inductive guard :=
 (* let part_count = 1 + max(part_ids) -- overflows (panics in a debug build) when an id is usize::MAX *)
 | GPartCountMaxId
 (* first statement that is not a recognised guard and may touch the partition: the algorithm proper *)
-| GCompute.
+| GCompute
+(* the translator did not understand the entry point (reason in Gen/GuardsGen.v): nothing is
+   known from here on, no theorem can be proved about the list *)
+| GUntranslated.
 
 Inductive outcome :=
 | OErr (e : error)      (* returned Err(e) *)
@@ -121,7 +124,7 @@ Definition step (g : guard) (sh : input_shape) (p : list N) : option (outcome * 
   | GNegative => if has_neg sh then Some (OErr NegativeValues, p) else None
   | GInvalidOrder mx => if (mx <? sh_order sh)%N then Some (OErr (InvalidOrder mx (sh_order sh)), p) else None
   | GPartCountMaxId => if (max_id p =? usize_max)%N then Some (OPanic 1, p) else None
-  | GCompute => Some (OProceed, p)
+  | GCompute | GUntranslated => Some (OProceed, p)
   end.
 
 (* the guard prefix of an entry point, run on a call *)
@@ -177,7 +180,7 @@ Definition guard_passes (f : facts) (g : guard) : bool :=
   | GBipartOnly => f_two_parts f
   | GNegative => f_nonneg f
   | GPartCountMaxId => f_ids_ok f
-  | GInvalidOrder _ | GCompute => false
+  | GInvalidOrder _ | GCompute | GUntranslated => false
   end.
 
 Definition subset_inputs (a b : list input_id) : bool := forallb (fun w => mem_input w b) a.
